@@ -23,18 +23,51 @@ var c05Ops = []string{
 	"create-slice-hasone", "create-hasmany-children-hasone",
 }
 
-func N_C05_Ops(tier int) int { return len(c05Ops) }
+// every operation runs under a dialect without and with RETURNING support
+func N_C05_Ops(tier int) int { return 2 * len(c05Ops) }
 
 func H_C05_Ops(shape int) {
-	op := c05Ops[shape]
+	op := c05Ops[shape%len(c05Ops)]
+	returning := shape >= len(c05Ops)
+	verifrt.Tag(op)
 	s := NewStore()
-	db := openReal(stubDialector{}, s, nil)
+	db := openReal(stubDialector{returning: returning}, s, nil)
 	hooks = &hookCtl{}
 	s.FaultAt = verifrt.Intn("fault_at", 0, 12)
 	hooks.failAt = verifrt.Intn("hook_fail_at", 0, 8)
 	// at most one failure per run (the property quantifies single failures)
 	verifrt.Assume(verifrt.Or(s.FaultAt == 0, hooks.failAt == 0))
 	next := int64(0)
+	// with RETURNING, generated keys come back as rows; the result set of the k-th such
+	// statement may fail while it is read (a constraint violation surfaces on the first
+	// fetch, a lost connection after some rows): the statement then wrote nothing
+	breakAt, broke, nret := 0, false, 0
+	if returning {
+		breakAt = verifrt.Intn("break_at", 0, 5)
+		verifrt.Assume(verifrt.Or(breakAt == 0, verifrt.And(s.FaultAt == 0, hooks.failAt == 0)))
+		s.OnQuery = func(text string, args []driver.Value) RowSet {
+			cols, ok := between(text, " RETURNING ", "")
+			if !ok {
+				return RowSet{}
+			}
+			nret++
+			rs := RowSet{Cols: quotedNames(cols)}
+			tuples := 1 + countSub(text, "),(")
+			for i := 0; i < tuples; i++ {
+				next += 10
+				row := make([]driver.Value, len(rs.Cols))
+				for j := range row {
+					row[j] = next
+				}
+				rs.Rows = append(rs.Rows, row)
+			}
+			if nret == breakAt {
+				broke = true
+				rs.BreakAfter = -1
+			}
+			return rs
+		}
+	}
 	zeroAffected := false
 	s.OnExec = func(text string, args []driver.Value) Result {
 		next += 10
@@ -144,7 +177,11 @@ func H_C05_Ops(shape int) {
 		verifrt.Assert(res.Error != nil, "C05.hook-error-swallowed")
 		verifrt.Assert(errors.Is(res.Error, errHook), "C05.hook-error-not-wrapped")
 	}
-	if !faultFired && !hookFired {
+	if broke {
+		verifrt.Assert(res.Error != nil, "C05.fault-swallowed")
+		verifrt.Assert(errors.Is(res.Error, errRowsBroken), "C05.fault-not-wrapped")
+	}
+	if !faultFired && !hookFired && !broke {
 		verifrt.Assert(res.Error == nil, "C05.spurious-error")
 	}
 	// all or nothing
